@@ -31,6 +31,15 @@ def closeRows (tol : Rat) (a b : Rows) : Bool :=
 
 def eqRows (a b : Rows) : Bool := a == b
 
+def maxAbsRows (a : Rows) : Rat := a.foldl (fun acc r => r.foldl (fun m x => if m < absQ x then absQ x else m) acc) 0
+
+/-- comparison for the trace learners: absolute tolerance scaled by the largest magnitude in the tables (one update adds
+    `error * el` with the SAME error to every stored pair, so a small entry inherits the absolute rounding error of a large one;
+    matters for ImportanceSampling, whose ratios above one let values grow) -/
+def closeRowsScaled (tol : Rat) (a b : Rows) : Bool :=
+  let sc := 1 + (if maxAbsRows a < maxAbsRows b then maxAbsRows b else maxAbsRows a)
+  a.length == b.length && (a.zip b).all (fun (x, y) => x.length == y.length && (x.zip y).all (fun (u, v) => decide (absQ (u - v) ≤ tol * sc)))
+
 def showRows (r : Rows) : String := " ; ".intercalate (r.map (fun row => " ".intercalate (row.map ratStr)))
 
 def component (L : String) : String :=
@@ -245,7 +254,7 @@ def tr : P String := do
       continue
     let r1 := toRows S A q1
     v := v.diffIf (!(closeTraces tolStep t1 outT)) s!"{comp} step {k} traces model={showTraces t1} impl={showTraces outT}"
-    v := v.diffIf (!(closeRows tolStep r1 out)) s!"{comp} step {k} table from-impl-state model={showRows r1} impl={showRows out}"
+    v := v.diffIf (!(closeRowsScaled tolStep r1 out)) s!"{comp} step {k} table from-impl-state model={showRows r1} impl={showRows out}"
     -- pure trajectory
     let ((t2, q2), _) := stepTR L γ α lam tol ε A πt πb mT (ofRows mQ) e
     let r2 := toRows S A q2
@@ -254,7 +263,7 @@ def tr : P String := do
     let qm := ofRows mQ
     let mAm := argmaxA A (qm s1)
     let nearTie := L.startsWith "c-" && (List.range A).any (fun x => x != mAm && closeQ tolRun (qm s1 x) (qm s1 mAm))
-    v := v.diffIf (!nearTie && !(closeRows tolRun r2 out)) s!"{comp} step {k} table trajectory model={showRows r2} impl={showRows out}"
+    v := v.diffIf (!nearTie && !(closeRowsScaled tolRun r2 out)) s!"{comp} step {k} table trajectory model={showRows r2} impl={showRows out}"
     -- (L3) trace clauses on the implementation's own list
     if lamFamily && decide (tol ≤ 1) then
       v := v.failIf (!(tracesInRange tol outT)) s!"{comp} trace_out_of_range step {k} traces={showTraces outT} tol={ratStr tol}"
@@ -264,7 +273,7 @@ def tr : P String := do
     -- (L3) λ = 0: exactly the one-step expected backup of the target policy, nothing else moves
     if lamFamily && lam == 0 then
       let exp := toRows S A (oneStep L γ α ε A πt qp e)
-      v := v.failIf (!(closeRows tolStep exp out)) s!"{comp} lambda0_not_one_step step {k} expected={showRows exp} impl={showRows out}"
+      v := v.failIf (!(closeRowsScaled tolStep exp out)) s!"{comp} lambda0_not_one_step step {k} expected={showRows exp} impl={showRows out}"
       let othersSame := ((prev.zip out).zipIdx).all (fun ((rp, ro), si) => ((rp.zip ro).zipIdx).all (fun ((x, y), ai) => (si == s && ai == a) || x == y))
       v := v.failIf (!othersSame) s!"{comp} lambda0_not_one_step step {k} other entries moved impl={showRows out}"
     if hypS then
@@ -443,6 +452,78 @@ def psw : P String := do
   if pops > 0 then v := { v with tag := v.tag ++ " pops" }
   return v.render
 
+/-! ### Dyna2: two SARSAL learners; the transient one inherits the permanent one's traces before every real step -/
+
+/-- `dyna2 S A γ α λ tol N next[S×A] rew[S×A] act[S] n events…`; event = `1 s a s1 a1 r` (stepUpdateQ) | `2 s0`
+    (batchUpdateQ(s0) with the deterministic internal policy `act` on the deterministic model) | `3`
+    (resetTransientLearning); after each: permanent table, transient table.  Traces are not observable through Dyna2
+    and are carried by the model; both tables are re-synchronised with the implementation after every event. -/
+def dyna2 : P String := do
+  let S ← P.nat; let A ← P.nat; let γ ← P.q; let α ← P.q; let lam ← P.q; let tol ← P.q; let N ← P.nat
+  let nextR ← P.rep (P.rep P.nat A) S
+  let rew ← tab S A
+  let act ← P.rep P.nat S
+  let n ← P.nat
+  if A == 0 || S == 0 then P.fail
+  let nextF := fun (s a : Nat) => (nextR.getD s []).getD a 0
+  let rq := ofRows rew
+  let pol := fun (s : Nat) => act.getD s 0
+  let zero : Rows := (List.range S).map (fun _ => (List.range A).map (fun _ => (0 : Rat)))
+  let mut qP := zero
+  let mut qT := zero
+  let mut trP : List Tr := []
+  let mut trT : List Tr := []
+  let mut v : Verdict := { tag := "dyna2" }
+  let mut ill := false
+  for k in [0:n] do
+    let kind ← P.nat
+    let mut e : StepIn := ⟨0, 0, 0, 0, 0, α, 0⟩
+    let mut s0 := 0
+    if kind == 1 then
+      let s ← P.nat; let a ← P.nat; let s1 ← P.nat; let a1 ← P.nat; let r ← P.q
+      e := ⟨s, a, s1, a1, r, α, 0⟩
+      if !(inRange S A e) then P.fail
+    if kind == 2 then
+      s0 ← P.nat
+      if !(s0 < S) then P.fail
+    let outP ← tab S A
+    let outT ← tab S A
+    if ill then continue
+    -- cut-off decisions within rounding of the cut-off cannot be followed without seeing the traces
+    let td := lam * γ
+    let nearCut (tr : List Tr) : Bool := tr.any (fun t => (t.el * td != tol) && closeQ tolStep (t.el * td) tol)
+    if nearCut trP || nearCut trT then
+      ill := true
+      continue
+    let mut mP := ofRows qP
+    let mut mT := ofRows qT
+    if kind == 1 then
+      trT := trP
+      let (tp, qp) := sarsalStep γ α lam tol trP mP e.s e.a e.s1 e.a1 e.r
+      let (tt, qt) := sarsalStep γ α lam tol trT mT e.s e.a e.s1 e.a1 e.r
+      trP := tp; mP := qp; trT := tt; mT := qt
+    else if kind == 2 then
+      trT := []
+      let mut s := s0
+      let mut a := pol s
+      for _ in [0:N] do
+        let s1 := nextF s a
+        let a1 := pol s1
+        let (tt, qt) := sarsalStep γ α lam tol trT (ofRows (toRows S A mT)) s a s1 a1 (rq s a)
+        trT := tt; mT := qt
+        s := s1; a := a1
+    else
+      mT := mP
+    let rP := toRows S A mP
+    let rT := toRows S A mT
+    v := v.diffIf (!(closeRows tolStep rP outP)) s!"Dyna2 event {k} kind={kind} permanent model={showRows rP} impl={showRows outP}"
+    v := v.diffIf (!(closeRows tolStep rT outT)) s!"Dyna2 event {k} kind={kind} transient model={showRows rT} impl={showRows outT}"
+    qP := outP; qT := outT
+  P.eof
+  if ill then v := { v with tag := v.tag ++ " prefix-only" }
+  if n == 0 then v := { v with tag := v.tag ++ " trivial" }
+  return v.render
+
 def handle (toks : List String) : String :=
   let r := match toks with
     | "tolguard" :: rest => P.run tolguard rest
@@ -451,6 +532,7 @@ def handle (toks : List String) : String :=
     | "ps" :: rest => P.run ps rest
     | "psw" :: rest => P.run psw rest
     | "dynab" :: rest => P.run dynab rest
+    | "dyna2" :: rest => P.run dyna2 rest
     | _ => none
   r.getD "bad-op"
 
